@@ -1227,6 +1227,10 @@ func (r *Run) fieldByName(st *State, v Val, name string) *Loc {
 			return &Loc{Kind: LComp, Comp: comp, Sort: srt, Idx: r.mustTerm(v, "ghost field base"), Typ: nil}
 		}
 	}
+	if _, isStruct := v.Typ.Underlying().(*types.Struct); isStruct && v.Kind == VTerm {
+		// a struct value is a reference to its storage (as for ssa.Field)
+		v = termVal(v.T, types.NewPointer(v.Typ))
+	}
 	obj, path, _ := types.LookupFieldOrMethod(v.Typ, true, nil, name)
 	if obj == nil {
 		// unexported fields need the package
